@@ -1050,3 +1050,29 @@ pub fn xz_probe_adapters_7() {
 pub fn xz_probe_adapters_8() {
     probe_adapters::<8>()
 }
+
+//@ harness props=C07,C03 tier=quick unwind=8 unwindset=default_read_exact:6,flush_zero_padding:10 mem_gb=6 timeout=600 native=no
+//@ bound: read_block_header directly on a 12-byte header body (flags 0, filter 0x21) with a SYMBOLIC one-byte size-of-properties field and symbolic following bytes; `vec![0; n]` observed: no request larger than the header size
+#[cfg_attr(kani, kani::proof)]
+#[cfg_attr(kani, kani::stub(std::fmt::format, crate::verif_common::stub_format))]
+#[cfg_attr(kani, kani::stub(std::io::Error::is_interrupted, crate::verif_common::stub_not_interrupted))]
+#[cfg_attr(kani, kani::stub(std::vec::from_elem, crate::verif_common::observing_from_elem))]
+pub fn xzblk_header_alloc_guard() {
+    let mut t = Tape::<16>::new();
+    let psize = t.u8() & 0x7F;
+    let rest: [u8; 8] = t.bytes::<8>();
+    let f = [0x00u8, 0x21, psize, rest[0], rest[1], rest[2], rest[3], rest[4], rest[5], rest[6], rest[7]];
+    crate::verif_common::ALLOC_MAX_REQUEST.store(0, std::sync::atomic::Ordering::Relaxed);
+    let mut rd = ArrReader::<11>::new(f, 11);
+    let header_size: u64 = 11;
+    let r = read_block_header(&mut rd, header_size);
+    let ok = r.is_ok();
+    forget(r);
+    let req = crate::verif_common::ALLOC_MAX_REQUEST.load(std::sync::atomic::Ordering::Relaxed);
+    vassert!(req as u64 <= header_size, "block header: the filter-properties buffer is never requested larger than the block header itself (early abort before allocating)");
+    if psize as u64 > header_size {
+        vassert!(!ok, "block header: a properties size beyond the header size is rejected");
+    }
+    vcover!(psize == 0x7F, "huge_props_size");
+    vcover!(ok, "alloc_guard_ok");
+}
